@@ -36,6 +36,14 @@ def copy_prog(ctx):
         # trees with preprocessor, include and directive nodes as well
         lines = src.split("\n")
         k = len(lines) // 2
+
+        def is_do(l):
+            w = l.strip().split(" ")
+            return w[0] == "do" and len(w) > 1 and w[1][:1].isdigit()
+        # not between the DO statements of a shared-label nest (recorded findings of C11 / C14):
+        # skip forward over comment lines and labelled DO statements
+        while 0 < k < len(lines) and (is_do(lines[k]) or lines[k].strip()[:1] == "!" or len(lines[k].strip()) == 0):
+            k += 1
         src = "\n".join(["#define VERSION 3"] + lines[:k] + ["#ifdef DEBUG", "  include 'absent.inc'", "#endif", "!$omp barrier"] + lines[k:])
     ctx.observe("src", src)
     kw = dict(process_directives=True) if not p["ic"] else {}
